@@ -1011,10 +1011,13 @@ impl<'a> Lexer<'a> {
                 Some('\\') if !raw => {
                     quote_count = 0;
                     // Handle escape sequences
+                    let pos = it.pos();
                     if Self::escape(&mut it, &mut text).is_err() {
+                        // From the backslash to the end of what `escape` consumed, as in `string`:
+                        // `it.pos() - 1` may be inside a multi-byte character (`f"\xé"`).
                         return Some(self.err_span(
                             LexemeError::InvalidEscapeSequence("\\".to_owned()),
-                            start + it.pos() - 1,
+                            start + pos - 1,
                             start + it.pos(),
                         ));
                     }
